@@ -249,6 +249,64 @@ def run_root(acc, d, r, seed):
             acc.sample(dict(case, rel_err=float(err)))
 
 
+def run_root_zero_ridge(acc, d, r):
+  """Ridge 0 and a diagonal statistic whose trailing unpadded coordinates are
+  exactly zero (never-updated rows): the library's convention gives a zero
+  eigenvalue the root value 0, and the constant is still the mean over *all*
+  non-retained unpadded dimensions."""
+  import jax
+  import jax.numpy as jnp
+  from precondition import distributed_shampoo as ds
+  k = abs(r)
+  if r < 0:
+    return
+  for pad in (0, 3):
+    n = d + pad
+    for nz in range(1, d - k):
+      lam = np.asarray([1.0 - 0.1 * i for i in range(k)] +
+                       [0.3 - 0.02 * i for i in range(d - k - nz)] +
+                       [0.0] * nz)
+      full = np.zeros((n, n))
+      full[:d, :d] = np.diag(lam)
+      if pad:
+        full[d:, d:] = np.eye(pad) * 7.0
+      for p in (2, 4):
+        acc.states += 1
+        acc.nontrivial += 1
+        acc.transitions += 1
+        sig = "C10|root0|d%d|r%d|pad%d|z%d|p%d" % (d, r, pad, nz, p)
+        case = {"d": d, "r": r, "padding": pad, "spectrum": lam.tolist(),
+                "p": p, "eps": 0.0, "relative": False}
+        try:
+          val, _ = ds._low_rank_root(
+              jnp.asarray(full), p, compression_rank=r, ridge_epsilon=0.0,
+              relative_matrix_epsilon=False, padding_start=d)
+          val = np.asarray(val)
+        except Exception as e:  # pylint: disable=broad-except
+          acc.violation(sig, "_low_rank_root raised %s: %s" %
+                        (type(e).__name__, str(e)[:200]), case)
+          continue
+        vecs, ie, c, z = ds._low_rank_unpack(jnp.asarray(val), r)
+        vecs = np.asarray(vecs)[:d]
+        dense = float(c) * (np.eye(d) - vecs @ vecs.T) + \
+            (vecs * np.asarray(ie)) @ vecs.T
+        rootv = np.where(lam > 0, np.where(lam > 0, lam, 1.0) ** (-1.0 / p),
+                         0.0)
+        vals = rootv.copy()
+        vals[k:] = rootv[k:].mean()
+        want = np.diag(vals)
+        err = np.max(np.abs(dense - want)) / np.max(np.abs(want))
+        if not err <= 1e-8:
+          acc.outcome("viol_root_zero_ridge")
+          acc.violation(sig + "|dense", "ridge 0, %d exactly-zero unpadded "
+                        "eigenvalues: denoted matrix differs from the root "
+                        "with the complement averaged over the unpadded "
+                        "dimensions: rel err %.3g (constant %.9g, expected "
+                        "%.9g)" % (nz, err, float(c), vals[-1]), case)
+        else:
+          acc.outcome("root_zero_ridge_ok")
+
+
 def run_apply(acc, r, tier):
   import jax.numpy as jnp
   from precondition import distributed_shampoo as ds
@@ -412,6 +470,7 @@ def run_task(task):
     run_pack(acc, task["d"], task["r"])
   elif task["kind"] == "root":
     run_root(acc, task["d"], task["r"], task["seed"])
+    run_root_zero_ridge(acc, task["d"], task["r"])
   else:
     run_apply(acc, task["r"], task["tier"])
   return acc.result()
